@@ -92,6 +92,16 @@ def base_dim_collisions(ctx):
     return [(i, ns) for i, ns in sorted(idx.items()) if len(ns) > 1]
 
 
+BASE_UNIT_NAMES = ("Meters", "Grams", "Seconds", "Amperes", "Kelvins", "Moles", "Candelas", "Radians", "Bits")
+
+
+def check_base_dims(ctx, cat):
+    """TLC judges that the library's base units have pairwise different single-base dimensions (Trace_BaseDims.tla)."""
+    recs = [{"id": u, "dim": cat[u]["dim"]} for u in BASE_UNIT_NAMES if u in cat]
+    n, bad = ctx.tlc_batch_validate("Trace_BaseDims.tla", recs, name="basedims", shards=1)
+    return bad
+
+
 def check_prefixes(ctx, prefixes, want):
     """TLC judges the prefix templates of the tree against the SI / IEC tables written in Trace_Prefixes.tla.  want: "mag" | "symbol".
     Returns the list of offending prefix names (and reports the ones the tree no longer defines as notes)."""
